@@ -136,7 +136,8 @@ def generate(check, rng, tier, run_index):
                  ('ragged', 3 if (mode != 'faultfree' and rag and j > 0 and n_ragged < 2) else 0)]
         k = rng.weighted(kinds)
         if k == 'write':
-            o = {'op': 'write', 'k': rng.weighted([(1, 5), (2, 3), (3, 2), (rng.randint(4, 7), 1)])}
+            # mostly a few frames per call; now and then a long stretch (a buffered reporter, a whole chunk of another file)
+            o = {'op': 'write', 'k': rng.weighted([(1, 50), (2, 30), (3, 20), (rng.randint(4, 7), 10), (rng.randint(20, 150), 3)])}
             if o['k'] == 1 and fmt in SQUEEZE_OK and rng.chance(0.4):
                 o['squeeze'] = True       # a single frame handed over as 2-d coordinates / scalar time ("dimension deficient by one")
             elif rng.chance(0.25):
@@ -151,6 +152,8 @@ def generate(check, rng, tier, run_index):
             ops.append({'op': k})
     if not any(o['op'] == 'write' for o in ops):
         ops.insert(0, {'op': 'write', 'k': 1})
+    if rng.chance(0.04):
+        ops.insert(0, {'op': 'write', 'k': 0})         # the very first call carries no frames (the loop's first chunk was empty)
     case = {'check': check, 'fmt': fmt, 'n_atoms': n_atoms, 'cell': cell, 'with_time': with_time,
             'seed': rng.below(1 << 30), 'mode': mode, 'ops': ops}
     if extras is not None:
